@@ -19,6 +19,9 @@ import (
 // itself (inconclusive, or the start of a dead-state proof).
 var WaitLong = 60 * time.Second
 
+// WaitShort is the interval between the two censuses of a dead-state proof.
+var WaitShort = 250 * time.Millisecond
+
 // Session is one client wired to an in-memory endpoint.
 type Session struct {
 	Log  *rig.Log
